@@ -6,7 +6,7 @@ PROP = "C02"
 LEVEL = "exploration"
 SHARDS = {"quick": 8, "thorough": 16}
 TIMEOUT = {"quick": 900, "thorough": 7200}
-REQUIRED = {"ckd_pub": 500, "pair_walk": 100, "refuse_hardened": 100, "ckd_pub_prf": 50}
+REQUIRED = {"ckd_pub": 500, "pair_walk": 100, "refuse_hardened": 100, "ckd_pub_prf": 50, "wallet_route": 100}
 ANCHORS = ['bip32:PubKeyNode.ckd', 'bip32:PubKeyNode.derive_path', 'bip32:PubKeyNode.generate_children', 'bip32:PubKeyNode.extended_public_key']
 RULE = ("seeded generator over public parents (from scalar classes incl. x-coordinates with leading zero bytes, both "
         "parities), chain-code classes, depth 0..254, construction form (ctor / parsed from xpub string, bytes, stream) and "
@@ -161,6 +161,66 @@ def judge_ckd_pub_prf(ctx, case):
                      mech="C02.ckd_pub_prf." + (bad[0][0] if bad else ""))
 
 
+def judge_wallet_route(ctx, case):
+    """The same key imported as a private and as a public extended key (any of the six flavours per side) through
+    BaseWallet.from_extended_key; the same normal path derived through a randomly chosen API on each side; every
+    node-level output - including extended_public_key() with its DEFAULT version - must agree with the other side and
+    with the reference."""
+    from btc_hd_wallet.base_wallet import BaseWallet
+    xk = bridge.xkey_from_case(case)
+    tn = case["testnet"]
+    net = "test" if tn else "main"
+    wp = BaseWallet.from_extended_key(xk.xprv(rb32.SLIP132[("prv", net, case["prv_purpose"])]))
+    wq = BaseWallet.from_extended_key(xk.xpub(rb32.SLIP132[("pub", net, case["pub_purpose"])]))
+    path = case["path"]
+
+    def walk(w, how):
+        if how == "by_path" and len(path) <= 5:
+            from ..ref import path as rpath
+            return w.by_path(rpath.fmt(path, "M"))
+        if how == "derive_path":
+            return w.master.derive_path(index_list=list(path))
+        if how == "generate_children" and path:
+            n = w.master.derive_path(index_list=list(path[:-1]))
+            return n.generate_children(interval=(path[-1], path[-1] + 1))[0]
+        n = w.master
+        for i in path:
+            n = n.ckd(index=i)
+        return n
+    bad = []
+    try:
+        a = walk(wp, case["how_prv"])
+        b = walk(wq, case["how_pub"])
+    except Exception as e:  # noqa
+        return ctx.judge("wallet_route", False, case, "nodes", e, cls="route|raised", mech="C02.wallet_route.raised")
+    ref = rb32.derive(xk, path)
+    vpub = rb32.version_for("pub", tn, 44)
+    if bytes(b.key) != ref.sec() or a.public_key.sec() != ref.sec():
+        bad.append(("key", ref.sec(), bytes(b.key)))
+    if bytes(b.chain_code) != ref.c or bytes(a.chain_code) != ref.c:
+        bad.append(("chain_code", ref.c, bytes(b.chain_code)))
+    if (b.depth, b.index) != (ref.depth, ref.index) or (a.depth, a.index) != (ref.depth, ref.index):
+        bad.append(("meta", (ref.depth, ref.index), (b.depth, b.index)))
+    if bytes(b.parent_fingerprint) != ref.pfp or bytes(a.parent_fingerprint) != ref.pfp or b.fingerprint() != ref.fingerprint():
+        bad.append(("fingerprints", ref.pfp, bytes(b.parent_fingerprint)))
+    sa, sb = a.extended_public_key(), b.extended_public_key()
+    if sb != ref.xpub(vpub):
+        bad.append(("default_xpub_public_side", ref.xpub(vpub), sb))
+    if sa != ref.xpub(vpub):
+        bad.append(("default_xpub_private_side", ref.xpub(vpub), sa))
+    for (typ, n2, pp), v in rb32.SLIP132.items():
+        if typ == "pub" and (a.extended_public_key(version=v) != ref.xpub(v) or b.extended_public_key(version=v) != ref.xpub(v)):
+            bad.append(("xpub_explicit_%s%d" % (n2, pp), ref.xpub(v), b.extended_public_key(version=v)))
+    for w, side in ((wp, a), (wq, b)):
+        got = w.node_extended_public_key(side)
+        pur = path[0] - H if path and path[0] in (44 + H, 49 + H, 84 + H) else 44
+        if got != ref.xpub(rb32.version_for("pub", tn, pur)):
+            bad.append(("node_extended_public_key", ref.xpub(rb32.version_for("pub", tn, pur)), got))
+    return ctx.judge("wallet_route", not bad, case, ref.fields(), bad[:4],
+                     cls="route|%s|prv%d|pub%d|%s|%s" % (net, case["prv_purpose"], case["pub_purpose"], case["how_prv"], case["how_pub"]),
+                     mech="C02.wallet_route." + (bad[0][0] if bad else ""))
+
+
 def install_probes(ctx):
     import btc_hd_wallet.bip32 as b32
     inst = probes.Installed()
@@ -287,6 +347,15 @@ def run(ctx):
                 case["depth"] = min(case["depth"], 250)
                 case["prefix"] = [gen.index(rnd, hardened=False)[1] for _ in range(L)]
             judge_refuse(ctx, case)
+        for j in range(ctx.scale(180, 20000)):
+            base = gen_pub_parent(rnd, lzx)
+            d = rnd.choice([0, 0, 1, 3])
+            base.update({"depth": d, "pindex": 0 if d == 0 else gen.index(rnd)[1], "pfp": b"\x00" * 4 if d == 0 else gen.rbytes(rnd, 4)})
+            base.update({"testnet": bool(j & 1), "prv_purpose": rnd.choice([44, 49, 84]), "pub_purpose": [44, 49, 84][(j // 2) % 3],
+                         "path": [gen.index(rnd, hardened=False)[1] for _ in range(rnd.randrange(0, 5))],
+                         "how_prv": rnd.choice(["by_path", "derive_path", "ckd", "generate_children"]),
+                         "how_pub": rnd.choice(["by_path", "derive_path", "ckd", "generate_children"])})
+            judge_wallet_route(ctx, base)
         pstate["stubbed"] = True
         for _ in range(ctx.scale(40, 3000)):
             base = gen_pub_parent(rnd, lzx)
@@ -308,7 +377,9 @@ def replay(ctx, monitor, case):
     try:
         if case.get("form") == "probe":
             case["form"] = "ctor"
-        if monitor == "pair_walk":
+        if monitor == "wallet_route":
+            judge_wallet_route(ctx, case)
+        elif monitor == "pair_walk":
             judge_pair_walk(ctx, case)
         elif monitor == "refuse_hardened" or (monitor.startswith("probe") and case["index"] >= H):
             judge_refuse(ctx, case)
